@@ -258,6 +258,8 @@ pub trait Locale: Copy + Eq + core::hash::Hash {
     type TranslationUnitId: TranslationUnitId;
     spec fn name(self) -> Seq<char>;
     fn as_str(self) -> (r: &'static str) ensures r@ == self.name();
+    /// hands the strings of a unit to the generated code (client side); no effect on the emitted text
+    fn init_translations(self, id: Self::TranslationUnitId, values: Vec<Box<str>>);
 }
 pub trait TranslationUnitId: Copy + Eq + core::hash::Hash {
     spec fn id_name(self) -> Option<Seq<char>>;
@@ -279,17 +281,17 @@ pub assume_specification<T>[ std::mem::replace::<T> ](dest: &mut T, src: T) -> (
     ensures r == *old(dest), *final(dest) == src;
 
 /// the first n strings of a unit, as script-safe literals separated by commas
-pub open spec fn joined(vals: Seq<&'static str>, n: int) -> Seq<char>
+pub open spec fn joined(vals: Seq<Seq<char>>, n: int) -> Seq<char>
     decreases n
 {
     if n <= 0 { Seq::empty() }
-    else if n == 1 { sstr(vals[0]@) }
-    else { joined(vals, n - 1) + seq![','] + sstr(vals[n - 1]@) }
+    else if n == 1 { sstr(vals[0]) }
+    else { joined(vals, n - 1) + seq![','] + sstr(vals[n - 1]) }
 }
 pub open spec fn lit(s: &str) -> Seq<char> { s@ }
 /// C17: what one registered translation unit contributes to the embedded array:
 /// `{"locale":"<locale>","id":"<id>"|null,"values":[<its strings, in order>]}` preceded by a comma unless first
-pub open spec fn unit_text<L: Locale, I: TranslationUnitId>(first: bool, locale: L, id: I, vals: Seq<&'static str>) -> Seq<char> {
+pub open spec fn unit_text<L: Locale, I: TranslationUnitId>(first: bool, locale: L, id: I, vals: Seq<Seq<char>>) -> Seq<char> {
     (if first { Seq::<char>::empty() } else { seq![','] })
     + lit("{\"locale\":\"") + locale.name()
     + (match id.id_name() { Some(n) => lit("\",\"id\":\"") + n + lit("\",\"values\":["), None => lit("\",\"id\":null,\"values\":[") })
@@ -297,21 +299,20 @@ pub open spec fn unit_text<L: Locale, I: TranslationUnitId>(first: bool, locale:
 }
 
 pub open spec fn str_views(vals: Seq<&'static str>) -> Seq<Seq<char>> { Seq::new(vals.len(), |i: int| vals[i]@) }
-pub proof fn lemma_joined_is_array_body(vals: Seq<&'static str>, n: int)
+pub proof fn lemma_joined_is_array_body(vals: Seq<Seq<char>>, n: int)
     requires 0 <= n <= vals.len(),
-    ensures joined(vals, n) == sarray_body(str_views(vals), n),
+    ensures joined(vals, n) == sarray_body(vals, n),
     decreases n
 {
     if n >= 2 { lemma_joined_is_array_body(vals, n - 1); }
 }
 /// C17: the `"values":[ .. ]` array of a unit parses as exactly that unit's strings, in order
-pub proof fn lemma_values_parse(vals: Seq<&'static str>)
-    ensures jarray(seq!['['] + joined(vals, vals.len() as int) + seq![']']) == Some(str_views(vals)),
+pub proof fn lemma_values_parse(vals: Seq<Seq<char>>)
+    ensures jarray(seq!['['] + joined(vals, vals.len() as int) + seq![']']) == Some(vals),
 {
-    let v = str_views(vals);
     lemma_joined_is_array_body(vals, vals.len() as int);
-    lemma_array_roundtrip(v, v.len() as int);
-    assert(v.subrange(0, v.len() as int) =~= v);
+    lemma_array_roundtrip(vals, vals.len() as int);
+    assert(vals.subrange(0, vals.len() as int) =~= vals);
 }
 
 /// the first n units of a listing, the first without and the others with a leading comma
@@ -319,7 +320,7 @@ pub open spec fn units_text<L: Locale>(kv: Seq<(&(L, L::TranslationUnitId), &&'s
     decreases n
 {
     if n <= 0 { Seq::empty() }
-    else { units_text(kv, n - 1) + unit_text(n == 1, kv[n - 1].0.0, kv[n - 1].0.1, kv[n - 1].1@) }
+    else { units_text(kv, n - 1) + unit_text(n == 1, kv[n - 1].0.0, kv[n - 1].0.1, str_views(kv[n - 1].1@)) }
 }
 /// C17: the whole script: one assignment of one array literal
 pub open spec fn script_text<L: Locale>(kv: Seq<(&(L, L::TranslationUnitId), &&'static [&'static str])>) -> Seq<char> {
@@ -336,10 +337,10 @@ pub open spec fn is_listing<L: Locale>(m: Map<(L, L::TranslationUnitId), &'stati
 // ---- the same text in the order the writer builds it: every step appends to the buffer so far (left-nested);
 // the loop invariants are stated in this form, the lemmas below show it is `prefix + units_text` ----
 pub open spec fn comma_unless(pre: Seq<char>, first: bool) -> Seq<char> { if first { pre } else { pre.push(',') } }
-pub open spec fn joined_app(pre: Seq<char>, vals: Seq<&'static str>, n: int) -> Seq<char>
+pub open spec fn joined_app(pre: Seq<char>, vals: Seq<Seq<char>>, n: int) -> Seq<char>
     decreases n
 {
-    if n <= 0 { pre } else { comma_unless(joined_app(pre, vals, n - 1), n == 1) + sstr(vals[n - 1]@) }
+    if n <= 0 { pre } else { comma_unless(joined_app(pre, vals, n - 1), n == 1) + sstr(vals[n - 1]) }
 }
 pub open spec fn unit_head<L: Locale, I: TranslationUnitId>(pre: Seq<char>, first: bool, locale: L, id: I) -> Seq<char> {
     let a = comma_unless(pre, first) + lit("{\"locale\":\"") + locale.name();
@@ -348,22 +349,22 @@ pub open spec fn unit_head<L: Locale, I: TranslationUnitId>(pre: Seq<char>, firs
         None => a + lit("\",\"id\":null,\"values\":["),
     }
 }
-pub open spec fn unit_app<L: Locale, I: TranslationUnitId>(pre: Seq<char>, first: bool, locale: L, id: I, vals: Seq<&'static str>) -> Seq<char> {
+pub open spec fn unit_app<L: Locale, I: TranslationUnitId>(pre: Seq<char>, first: bool, locale: L, id: I, vals: Seq<Seq<char>>) -> Seq<char> {
     joined_app(unit_head(pre, first, locale, id), vals, vals.len() as int) + lit("]}")
 }
 pub open spec fn units_app<L: Locale>(pre: Seq<char>, kv: Seq<(&(L, L::TranslationUnitId), &&'static [&'static str])>, n: int) -> Seq<char>
     decreases n
 {
-    if n <= 0 { pre } else { unit_app(units_app(pre, kv, n - 1), n == 1, kv[n - 1].0.0, kv[n - 1].0.1, kv[n - 1].1@) }
+    if n <= 0 { pre } else { unit_app(units_app(pre, kv, n - 1), n == 1, kv[n - 1].0.0, kv[n - 1].0.1, str_views(kv[n - 1].1@)) }
 }
-pub proof fn lemma_joined_app(pre: Seq<char>, vals: Seq<&'static str>, n: int)
+pub proof fn lemma_joined_app(pre: Seq<char>, vals: Seq<Seq<char>>, n: int)
     requires 0 <= n <= vals.len(),
     ensures joined_app(pre, vals, n) =~= pre + joined(vals, n),
     decreases n
 {
     if n > 0 { lemma_joined_app(pre, vals, n - 1); }
 }
-pub proof fn lemma_unit_app<L: Locale, I: TranslationUnitId>(pre: Seq<char>, first: bool, locale: L, id: I, vals: Seq<&'static str>)
+pub proof fn lemma_unit_app<L: Locale, I: TranslationUnitId>(pre: Seq<char>, first: bool, locale: L, id: I, vals: Seq<Seq<char>>)
     ensures unit_app(pre, first, locale, id, vals) =~= pre + unit_text(first, locale, id, vals),
 {
     lemma_joined_app(unit_head(pre, first, locale, id), vals, vals.len() as int);
@@ -375,13 +376,45 @@ pub proof fn lemma_units_app<L: Locale>(pre: Seq<char>, kv: Seq<(&(L, L::Transla
 {
     if n > 0 {
         lemma_units_app(pre, kv, n - 1);
-        lemma_unit_app(units_app(pre, kv, n - 1), n == 1, kv[n - 1].0.0, kv[n - 1].0.1, kv[n - 1].1@);
+        lemma_unit_app(units_app(pre, kv, n - 1), n == 1, kv[n - 1].0.0, kv[n - 1].0.1, str_views(kv[n - 1].1@));
     }
 }
 
 impl<L: Locale> RegisterCtx<L> {
 //@@ to_array
 }
+
+// ---- client side (feature `hydrate`) ----
+// T1: copied from the body of init_translations (the serde derive dropped)
+pub struct Trans<L, Id> {
+    pub locale: L,
+    pub id: Id,
+    pub values: Vec<Box<str>>,
+}
+pub open spec fn box_views(vals: Seq<Box<str>>) -> Seq<Seq<char>> { Seq::new(vals.len(), |i: int| vals[i]@) }
+pub open spec fn h_units_text<L: Locale>(ts: Seq<Trans<L, L::TranslationUnitId>>, n: int) -> Seq<char>
+    decreases n
+{
+    if n <= 0 { Seq::empty() }
+    else { h_units_text(ts, n - 1) + unit_text(n == 1, ts[n - 1].locale, ts[n - 1].id, box_views(ts[n - 1].values@)) }
+}
+pub open spec fn h_units_app<L: Locale>(pre: Seq<char>, ts: Seq<Trans<L, L::TranslationUnitId>>, n: int) -> Seq<char>
+    decreases n
+{
+    if n <= 0 { pre } else { unit_app(h_units_app(pre, ts, n - 1), n == 1, ts[n - 1].locale, ts[n - 1].id, box_views(ts[n - 1].values@)) }
+}
+pub proof fn lemma_h_units_app<L: Locale>(pre: Seq<char>, ts: Seq<Trans<L, L::TranslationUnitId>>, n: int)
+    requires 0 <= n <= ts.len(),
+    ensures h_units_app(pre, ts, n) =~= pre + h_units_text(ts, n),
+    decreases n
+{
+    if n > 0 {
+        lemma_h_units_app(pre, ts, n - 1);
+        lemma_unit_app(h_units_app(pre, ts, n - 1), n == 1, ts[n - 1].locale, ts[n - 1].id, box_views(ts[n - 1].values@));
+    }
+}
+
+//@@ hydrate_script
 
 } // verus!
 fn main() {}
